@@ -144,7 +144,7 @@ func (j *jv) walk(f func(*jv)) {
 
 var segs = []string{"a", "b", "foo", "fo", "foobar", "bar", "x", "lib", "src", "index", "util", "feature"}
 var exts = []string{".js", ".js", ".js", ".mjs", ".cjs", ".json", ""}
-var condNames = []string{"import", "require", "node", "default", "browser", "development", "production", "types", "deno", "worker"}
+var condNames = []string{"import", "require", "node", "default", "import", "require", "node", "default", "browser", "development", "production", "types", "deno", "worker"}
 
 // strings that exercise the segment / URL rules
 var oddSegs = []string{"..", ".", "node_modules", "NODE_MODULES", "Node_Modules", "%2e%2e", "%2E", "%2e", "%6eode_modules", "", "a%2fb", "a%5Cb", "%41", "a b", "a\\b", "x?y", "x#y", "A", "...", "node_modules2", ".hidden", "%", "%zz"}
@@ -283,6 +283,19 @@ func genMap(r *Rng, isImports bool, odd int) *jv {
 	for i := 0; i < n; i++ {
 		star := r.Chance(50)
 		key := pre + genPath(r, star)
+		if star && r.Chance(30) {
+			// same pattern base as an existing key, different trailer: PATTERN_KEY_COMPARE falls through to the key length
+			for _, k := range o.keys {
+				if strings.HasSuffix(k, "*") {
+					key = k + r.Pick([]string{".js", "/index.js", "bar", ".json", "/x.js"})
+					break
+				}
+				if i := strings.IndexByte(k, '*'); i >= 0 && r.Chance(50) {
+					key = k[:i+1]
+					break
+				}
+			}
+		}
 		if r.Chance(odd) {
 			switch r.Intn(6) {
 			case 0:
@@ -353,7 +366,9 @@ func genStarMatch(r *Rng, odd int) string {
 	}
 }
 
-func genSubpath(r *Rng, m *jv, isImports bool, odd int) string { return genSubpathWith(r, m, isImports, odd, nil) }
+func genSubpath(r *Rng, m *jv, isImports bool, odd int) string {
+	return genSubpathWith(r, m, isImports, odd, nil)
+}
 
 func genSubpathWith(r *Rng, m *jv, isImports bool, odd int, subs []string) string {
 	pre := "./"
@@ -374,6 +389,13 @@ func genSubpathWith(r *Rng, m *jv, isImports bool, odd int, subs []string) strin
 			case r.Chance(6):
 				if len(key) > i+1 {
 					return key[:i] + key[i+1:] // empty match with trailer
+				}
+			}
+			if key[i+1:] == "" && r.Chance(35) {
+				for _, k2 := range m.keys {
+					if strings.HasPrefix(k2, key) && len(k2) > len(key) {
+						return key[:i] + r.Pick([]string{"a", "foo", "a/b", "x"}) + k2[len(key):]
+					}
 				}
 			}
 			if subs != nil && !r.Chance(odd+8) {
@@ -708,6 +730,20 @@ func runAlg(r *Rng, n int, tmp string, st *Stats, ao *algOut) {
 		{jobj(".", "./index.js", "./*", "./lib/*.js", "./lib/*", jnull()), "./lib/a"},
 		{jobj("./*", "./lib/*.js", "./internal/*", jnull()), "./internal/x"},
 		{jobj("./a*", "./1/*.js", "./a*b", "./2/*.js", "./ab*", "./3/*.js"), "./abxb"},
+		{jobj("./a*", "./1/*.js", "./a*b", "./2/*.js", "./ab*", "./3/*.js"), "./axb"},
+		{jobj("./a*b", "./2/*.js", "./a*", "./1/*.js"), "./axb"},
+		{jobj("./lib/*", "./src/*", "./lib/*.js", "./dist/*.js"), "./lib/x.js"},
+		{jobj("./lib/*.js", "./dist/*.js", "./lib/*", "./src/*"), "./lib/x.js"},
+		{jobj("./lib/*", "./src/*", "./lib/*/index.js", "./dist/*.js"), "./lib/x/index.js"},
+		{jobj("./a", jarr(jnull(), jstr("./x.js"))), "./a"},
+		{jobj("./a", jarr(jobj("types", "./t.js"), jnull(), jstr("./x.js"))), "./a"},
+		{jobj("./ab*", "./1/*.js"), "./ab"},
+		{jobj("./a*b", "./1/*.js"), "./ab"},
+		{jobj("./a*b", "./1/*.js"), "./axb"},
+		{jobj("./a*bc", "./1/*.js"), "./abc"},
+		{jobj("./x", "./lib/./x.js"), "./x"},
+		{jobj("./*", "./lib/*"), "./a/./b.js"},
+		{jobj("./*", "./lib/*"), "./a/b/."},
 		{jobj("./a*b*", "./1/*.js"), "./axb*"},
 		{jobj("import", "./m.mjs", "require", "./c.cjs"), "."},
 		{jobj("import", "./m.mjs", "require", "./c.cjs"), "./x"},
@@ -953,10 +989,10 @@ type pkgSpec struct {
 
 type tree struct {
 	sorted []string // file paths, sorted (for deterministic picks)
-	root  string
-	files map[string]string // rel path -> contents
-	links map[string]string // rel path -> target (relative symlink)
-	pkgs  []*pkgSpec
+	root   string
+	files  map[string]string // rel path -> contents
+	links  map[string]string // rel path -> target (relative symlink)
+	pkgs   []*pkgSpec
 }
 
 func (t *tree) file(p string) {
@@ -1055,6 +1091,29 @@ func (t *tree) addPkg(r *Rng, dir, name string, odd int) *pkgSpec {
 	return p
 }
 
+func (t *tree) addFixed(dir, pkgJSON string, files ...string) {
+	t.files[filepath.Join(dir, "package.json")] = pkgJSON + "\n"
+	for _, f := range files {
+		t.file(filepath.Join(dir, f))
+	}
+}
+
+var fixedSpecs = []struct{ importer, spec string }{
+	{"src/main.js", "pkg-cond"}, {"src/main.js", "pkg-cond/feature"}, {"src/main.js", "pkg-cond/sub/a"}, {"src/main.js", "pkg-cond/only-import"},
+	{"src/main.js", "pkg-cond/package.json"}, {"src/main.js", "pkg-cond/lib/a.js"},
+	{"node_modules/pkg-cond/lib/a.js", "pkg-cond/feature"}, {"node_modules/pkg-cond/lib/a.js", "#int"}, {"node_modules/pkg-cond/lib/a.js", "#dep"},
+	{"node_modules/pkg-cond/lib/a.js", "#sub/a"}, {"node_modules/pkg-cond/lib/a.js", "#missing"},
+	{"src/main.js", "pkg-main"}, {"src/main.js", "pkg-main/lib/other"}, {"src/main.js", "pkg-idx"}, {"src/main.js", "pkg-idx/lib"}, {"src/main.js", "pkg-dirmain"},
+	{"src/main.js", "pkg-mod"}, {"src/main.js", "pkg-mod/a"}, {"src/main.js", "pkg-mod/internal/x"}, {"src/main.js", "pkg-mod/lib/a.js"},
+	{"src/main.js", "dep-pkg/package.json"}, {"node_modules/pkg-a/index.js", "dep-pkg/package.json"}, {"src/main.js", "only-nested/package.json"},
+	{"node_modules/pkg-a/index.js", "only-nested/package.json"}, {"node_modules/pkg-a/index.js", "pkg-idx"}, {"node_modules/pkg-a/node_modules/dep-pkg/index.js", "pkg-main"},
+	{"src/main.js", "pkg-l/package.json"}, {"linked-src/pkg-l/index.js", "dep-of-l/package.json"}, {"node_modules/pkg-l/index.js", "dep-of-l/package.json"},
+	{"linked-src/pkg-l/index.js", "pkg-idx"}, {"node_modules/pkg-l/index.js", "pkg-idx"},
+	{"src/main.js", "./util"}, {"src/main.js", "./dir"}, {"src/main.js", "./dir2"}, {"src/main.js", "./both"}, {"src/main.js", "./data"}, {"src/main.js", "./noext"},
+	{"src/main.js", "./m.mjs"}, {"src/main.js", "./util.js"}, {"src/main.js", "./dir/index.js"}, {"src/deep/er/x.js", "../../util"}, {"src/deep/er/x.js", "../../dir2/entry"},
+	{"src/main.js", "@scope/pkg-s/package.json"}, {"src/main.js", "@scope/pkg-s/lib/a.js"}, {"src/main.js", "missing-pkg"}, {"src/main.js", "misnamed/package.json"},
+}
+
 func (t *tree) materialise() error {
 	var paths []string
 	for p := range t.files {
@@ -1105,6 +1164,13 @@ func genTree(r *Rng, root string, odd int) *tree {
 	t.addPkg(r, "linked-src/pkg-l", "pkg-l", odd) // symlinked package with its own dependencies
 	t.addPkg(r, "linked-src/pkg-l/node_modules/dep-of-l", "dep-of-l", odd)
 	t.links["node_modules/pkg-l"] = "../linked-src/pkg-l"
+	// fixed packages: the boundary grid of the glue stream (same in every tree)
+	t.addFixed("node_modules/pkg-cond", `{"name":"pkg-cond","exports":{".":{"import":"./m.mjs","require":"./c.cjs"},"./feature":{"node":{"import":"./lib/f.mjs","require":"./lib/f.cjs"},"default":"./lib/f.js"},"./sub/*":{"require":"./lib/*.js","default":"./src/*.js"},"./only-import":{"import":"./m.mjs"},"./package.json":"./package.json"},"imports":{"#int":{"require":"./c.cjs","import":"./m.mjs"},"#dep":"dep-pkg","#sub/*":"./lib/*.js"}}`,
+		"m.mjs", "c.cjs", "lib/f.mjs", "lib/f.cjs", "lib/f.js", "lib/a.js", "src/a.js", "index.js")
+	t.addFixed("node_modules/pkg-main", `{"name":"pkg-main","main":"lib/main"}`, "lib/main.js", "index.js", "lib/other.js", "lib/other.json")
+	t.addFixed("node_modules/pkg-idx", `{"name":"pkg-idx"}`, "index.js", "lib/index.js", "lib/a.js")
+	t.addFixed("node_modules/pkg-dirmain", `{"name":"pkg-dirmain","main":"./lib"}`, "index.js", "lib/index.js")
+	t.addFixed("node_modules/pkg-mod", `{"name":"pkg-mod","type":"module","main":"./main.js","exports":{".":"./main.js","./*":"./lib/*.js","./internal/*":null}}`, "main.js", "lib/a.js", "lib/internal/x.js", "internal/x.js")
 	if r.Chance(50) { // a package whose package.json has a different name than its directory
 		t.addPkg(r, "node_modules/misnamed", "other-name", odd)
 	}
@@ -1362,6 +1428,12 @@ func genSpecifiers(r *Rng, t *tree, n int, odd int) []glueCase {
 		"node_modules/pkg-a/node_modules/dep-pkg/index.js"}
 	names := []string{"pkg-a", "pkg-b", "@scope/pkg-s", "dep-pkg", "only-nested", "pkg-l", "dep-of-l", "rootpkg", "misnamed", "other-name", "missing-pkg"}
 	var out []glueCase
+	for _, f := range fixedSpecs {
+		for _, k := range []string{"require", "import"} {
+			out = append(out, glueCase{Importer: filepath.Join(t.root, f.importer), Spec: f.spec, Kind: k, via: "grid"})
+		}
+	}
+	n += len(out)
 	for len(out) < n {
 		imp := r.Pick(importers)
 		kind := r.Pick([]string{"require", "import"})
@@ -1527,7 +1599,7 @@ func runGlue(r *Rng, n int, tmp string, st *Stats) {
 				continue
 			}
 			input := map[string]interface{}{"level": "full-stack", "importer": rel, "specifier": c.Spec, "kind": c.Kind, "observed_through": how,
-				"package_json_files": pkgsDump(), "symlinks": t.links}
+				"tree_package_json_files": pkgsDump(), "symlinks": t.links}
 			tags := t.tagsFor(rel, c.Spec)
 			if len(tags) > 0 {
 				cl := strings.Join(tags, "+")
